@@ -278,8 +278,12 @@ def rule_casl(S):
                         g = dict(guards)
                         g[fld] = truth
                         guards = frozenset(g.items())
+                cneg = False
+                while c is not None and c['k'] == 'UnaryOperator' and c.get('op') == '!':
+                    cneg = not cneg
+                    c = f.strip(f.ch(c)[0], casts=True)
                 if c is not None and c['k'] == 'CXXMemberCallExpr' and c.get('cn', '').startswith('compare_exchange'):
-                    if idx == 0:
+                    if (idx == 0) != cneg:
                         return (copied, mods, guards, True, bools)
                     return (None, frozenset(), frozenset(), False, frozenset())  # failed CAS refreshed expected: copy is stale
             return (copied, mods, guards, success, bools)
